@@ -114,3 +114,41 @@ package fasthttp
 //@   end
 //@   ensures[closed-exactly-once] closes == 1
 //@   ensures[one-framing] fixed + chunked <= 1 && headers == 1
+
+// compressedBodyStream (C34): the handler's original stream sits behind the compressing goroutine. It is closed by
+// whichever comes first -- the goroutine finishing (closeOriginal) or the response being dropped
+// (closeOriginalForDiscard) -- and the flag originalClosed, only touched under originalLock, makes that exactly once:
+// each of the two closes the stream only if the flag was clear when it took the lock, and leaves the flag set whenever
+// it (or anyone before it) closed the stream.
+//@ monitor compressedBodyStream originalLock
+//@   property C34
+//@   protects originalClosed
+
+//@ func compressedBodyStream.closeOriginal results err
+//@   property C34
+//@   mode skeleton
+//@   ghost closes int = 0
+//@   on call io.Closer.Close -> e:
+//@     nohavoc
+//@     requires[not-closed-before] !atlock(s.originalClosed)
+//@     effect closes = closes + 1
+//@   on call ReadCloserWithError.CloseWithError -> e:
+//@     nohavoc
+//@   on call releaseRequestStream:
+//@     nohavoc
+//@   end
+//@   ensures[at-most-once] closes <= 1
+//@   ensures[recorded] s.originalClosed
+
+//@ func compressedBodyStream.closeOriginalForDiscard results err
+//@   property C34
+//@   mode skeleton
+//@   ghost closes int = 0
+//@   on call io.Closer.Close -> e:
+//@     nohavoc
+//@     requires[not-closed-before] !atlock(s.originalClosed)
+//@     effect closes = closes + 1
+//@   end
+//@   ensures[at-most-once] closes <= 1
+//@   ensures[a-close-is-recorded] closes == 1 ==> s.originalClosed
+//@   ensures[flag-never-cleared] atlock(s.originalClosed) ==> s.originalClosed
